@@ -70,6 +70,18 @@ fn main() {
     match r {
         Err(e) => {
             let msg = e.downcast_ref::<String>().cloned().or_else(|| e.downcast_ref::<&str>().map(|s| s.to_string())).unwrap_or_default();
+            if msg.starts_with("replay-infrastructure") {
+                println!("REPLAY-ERROR {}", msg);
+                std::process::exit(2);
+            }
+            // assertions recorded before the panic still count
+            for m in msverif::sym::failures() {
+                println!("REPRODUCED assertion: {}", m);
+            }
+            if msverif::sym::exhausted() && msverif::sym::failures().is_empty() {
+                println!("NOT-REPRODUCED (panic after the model's values were used up: {})", msg);
+                std::process::exit(0);
+            }
             println!("REPRODUCED panic: {}", msg);
             std::process::exit(1);
         }
